@@ -312,6 +312,12 @@ impl Scheduler {
         }
     }
 
+    /// How many other threads are parked mid-search on `obj` right now.
+    pub fn others_midsearch(&self, tid: usize, obj: u32) -> usize {
+        let g = self.lock();
+        (0..self.n).filter(|&t| t != tid && g.parked_at_hook[t] && g.midsearch[t] == obj).count()
+    }
+
     pub fn set_midsearch(&self, tid: usize, obj: u32) {
         let mut g = self.lock();
         g.midsearch[tid] = obj;
